@@ -45,6 +45,8 @@ func describeMeta(o Outcome, k string) string {
 
 // value expressions for the round trip: (type, expression text, variables)
 type rtValue struct {
+	pre   string // statements of the first script that come before the two writes
+	given string // the text the value must be written as, when it is a variable given in canonical form
 	typ  string
 	expr string
 	vars map[string]string
@@ -56,21 +58,29 @@ func (c *Ctx) roundTripCase(v rtValue) {
 	if v.decl != "" {
 		decl = "vars { " + v.decl + " }\n"
 	}
-	first := simpleScenario(decl+"set_account_meta(@acct, \"k\", "+v.expr+")\nset_tx_meta(\"k\", "+v.expr+")", v.vars, nil)
+	first := simpleScenario(decl+v.pre+"set_account_meta(@acct, \"k\", "+v.expr+")\nset_tx_meta(\"k\", "+v.expr+")", v.vars, nil)
 	o1, log1 := first.run()
 	t1, _ := first.coq(o1, log1)
 	jsonText := ""
 	second, plain := "None", "None"
 	if o1.Class == "ok" {
 		if mv, ok := o1.Res.Metadata["k"]; ok {
-			if b, err := json.Marshal(mv); err == nil {
-				var s string
-				if json.Unmarshal(b, &s) == nil {
-					jsonText = s
-				} else {
-					jsonText = "<not a JSON string: " + string(b) + ">"
+			func() {
+				// a value corrupted by the run can make its own String() panic: that is an observation, not a crash of the harness
+				defer func() {
+					if r := recover(); r != nil {
+						jsonText = "<the value cannot be rendered: " + fmt.Sprint(r) + ">"
+					}
+				}()
+				if b, err := json.Marshal(mv); err == nil {
+					var s string
+					if json.Unmarshal(b, &s) == nil {
+						jsonText = s
+					} else {
+						jsonText = "<not a JSON string: " + string(b) + ">"
+					}
 				}
-			}
+			}()
 		}
 		stored := o1.Res.AccountsMetadata
 		s2 := simpleScenario("vars { "+v.typ+" $v = meta(@acct, \"k\") }\nset_tx_meta(\"back\", $v)", nil, deepCopyMeta(stored))
@@ -86,7 +96,11 @@ func (c *Ctx) roundTripCase(v rtValue) {
 	ci := &CaseInfo{Kind: "c13rt", Text: first.Text, Vars: v.vars, FailAt: -1, Extra: map[string]any{"type": v.typ}}
 	ci.Class = o1.Class
 	ci.Observed = shortObserved(o1) + " | accounts meta: " + fmt.Sprint(o1.Res.AccountsMetadata) + " | json: " + jsonText
-	ci.Coq = fmt.Sprintf("(mk_c13rt %s %s %s %s %s)", coqStr(v.typ), t1, coqStr(jsonText), second, plain)
+	given := "None"
+	if v.given != "" {
+		given = "(Some " + coqStr(v.given) + ")"
+	}
+	ci.Coq = fmt.Sprintf("(mk_c13rt %s %s %s %s %s %s)", coqStr(v.typ), t1, coqStr(jsonText), second, plain, given)
 	c.add(ci)
 }
 
@@ -202,12 +216,23 @@ func init() {
 			case 5:
 				v = rtValue{typ: "number", expr: bi(int64(r.Intn(2000) - 1000)).String()}
 			case 6:
-				v = rtValue{typ: "number", expr: "$x", decl: "number $x", vars: map[string]string{"x": big1.String()}}
+				v = rtValue{typ: "number", expr: "$x", decl: "number $x", vars: map[string]string{"x": big1.String()}, given: big1.String()}
+				if r.Chance(1, 2) {
+					// the variable has been an operand before it is written: an operation leaves its operands alone
+					v.pre = "set_tx_meta(\"tmp\", $x " + r.Pick([]string{"-", "+"}) + " " + r.Pick([]string{"5", "$x", "18446744073709551616"}) + ")\n"
+					if strings.Contains(v.pre, "18446744073709551616") {
+						v.pre = "set_tx_meta(\"tmp\", $x - 7)\n"
+					}
+				}
 			case 7:
 				// any spelling the ASSET token allows: letters, digits and slashes in any order
 				v = rtValue{typ: "monetary", expr: "[" + r.Pick(append(assetPool, "A", "1INCH", "BTC/USD", "USD/2/3", "/2", "2KEY/8", "X/Y/9", "0A")) + " " + bi(int64(r.Intn(2000)-1000)).String() + "]"}
 			case 8:
-				v = rtValue{typ: "monetary", expr: "$x", decl: "monetary $x", vars: map[string]string{"x": r.Pick(append(assetPool, "1INCH", "BTC/USD", "EUR/2/1")) + " " + big1.String()}}
+				ast := r.Pick(append(assetPool, "1INCH", "BTC/USD", "EUR/2/1"))
+				v = rtValue{typ: "monetary", expr: "$x", decl: "monetary $x", vars: map[string]string{"x": ast + " " + big1.String()}, given: ast + " " + big1.String()}
+				if r.Chance(1, 2) {
+					v.pre = "set_tx_meta(\"tmp\", $x " + r.Pick([]string{"-", "+"}) + " " + r.Pick([]string{"[" + ast + " 5]", "$x"}) + ")\n"
+				}
 			case 9:
 				v = rtValue{typ: "portion", expr: func() string {
 					d := 1 + r.Intn(40)
